@@ -297,20 +297,42 @@ def err_text(ex: BaseException) -> str:
     return arg[:160]
 
 
-def outcome(fn: Callable[[], Any], catch_base: bool = False) -> Tuple[List[Any], Any]:
-    """Run fn; return (fingerprint, value-or-exception).  Fingerprint = [kind, class, canonical]."""
+def outcome(fn: Callable[[], Any], value: bool = True) -> Tuple[List[Any], Any]:
+    """Run fn; return (fingerprint, value-or-exception).  Fingerprint = [kind, class, canonical];
+    with value=False a successful result is fingerprinted as ["value"] only."""
     try:
         v = fn()
     except Exception as ex:  # noqa: BLE001
         from celpy.evaluation import CELEvalError
 
         kind = "CELEvalError" if isinstance(ex, CELEvalError) else "exception"
-        return [kind, type(ex).__name__, err_text(ex)], ex
-    return ["value"] + canon(v), v
+        try:
+            text = err_text(ex)
+        except RecursionError:
+            text = "<unprintable>"
+        return [kind, type(ex).__name__, text], ex
+    if not value:
+        return ["value"], v
+    try:
+        return ["value"] + canon(v), v
+    except RecursionError:
+        return ["value", type(v).__name__, "<too deep to print>"], v
 
 
 # --------------------------------------------------------------------------------------------
 # delta debugging
+
+_DEADLINE = [float("inf")]
+
+
+def set_deadline(seconds_from_now: Optional[float]) -> None:
+    """Wall budget for one minimisation (wall-clock only bounds the search, never decides a run)."""
+    _DEADLINE[0] = float("inf") if seconds_from_now is None else time.monotonic() + seconds_from_now
+
+
+def expired() -> bool:
+    return time.monotonic() > _DEADLINE[0]
+
 
 
 def ddmin(items: Sequence[Any], test: Callable[[List[Any]], bool], budget: int = 200) -> List[Any]:
